@@ -68,6 +68,7 @@ def cases(tier, seed):
     # two-stage stochastic problems (make_slp): the same accounting identities on the extended problem
     out.append(('slp_two_node', dict(shape='two_node', kw=dict(T=3), split='slp', level='A', slp=dict(boundary=1, S=2))))
     # the value a robust optimisation reports is the value of the nominal cost vector (what the cash-flow table adds up to), LP and MIP
+    out.append(('returned_value_and_vector_soft_then_hard', dict(shape='-', kw={}, split='c03soft', level='A')))
     out.append(('robust_value_lp', dict(shape='contract_storage', kw=dict(T=2), split='robust', level='A', slp=dict(S=1))))
     out.append(('robust_value_mip', dict(shape='orderbook', kw=dict(T=2, full_exec=True, orders=((0, 2, 2.0), (1, 2, -1.5))), split='robust', level='A', slp=dict(S=1))))
     out.append(('slp_contract_storage', dict(shape='contract_storage', kw=dict(T=3, wacc=True), split='slp', level='A', slp=dict(boundary=2, S=1))))
@@ -91,6 +92,11 @@ def slp_scenario(D, shape, kw, boundary, S, env=None):
 
 
 def run_case(case_id, tier, seed, shape, kw, split, level, slp=None):
+    if split == 'c03soft':
+        from . import c03
+        res = c03.run_case(case_id, tier, seed, **C03SOFT)
+        res['prop'] = PROP
+        return res
     rec = lpsem.Rec(PROP, case_id)
     if split == 'robust':
         from . import c03
@@ -153,7 +159,13 @@ def run_case(case_id, tier, seed, shape, kw, split, level, slp=None):
     return rec.result()
 
 
+C03SOFT = dict(kind='soft', m=2, n=3, mapping='bool_after_unmapped', ctypes=['UN'])
+
+
 def observe(case, kwargs, env, rq):
+    if kwargs.get('split') == 'c03soft':
+        from . import c03
+        return c03.observe(case, C03SOFT, env, rq)
     if kwargs.get('split') == 'robust':
         from . import c03
         return c03.observe_robust(case, dict(shape=kwargs['shape'], kw=kwargs['kw'], S=kwargs['slp']['S']), env, rq)
@@ -165,6 +177,9 @@ def observe(case, kwargs, env, rq):
 
 
 def judge(case, kwargs, cand, ans):
+    if kwargs.get('split') == 'c03soft':
+        from . import c03
+        return c03.judge(case, C03SOFT, cand, ans)
     if kwargs.get('split') == 'robust':
         from . import c03
         return c03.judge_robust(case, dict(kind='robust', shape=kwargs['shape'], kw=kwargs['kw'], S=kwargs['slp']['S']), cand, ans)
